@@ -413,6 +413,16 @@ def eval_stream_case(flex, workdir, case):
             ok = False
         if not fatal_expected and rrc != 0:
             ok = False
+        if not ok and "flex scanner push-back overflow" in rerr and not fatal_expected:
+            # the documented fatal error of yyunput() when the buffer cannot hold the pushed-back text (the buffer is not
+            # enlarged for it): accepted with a small YY_BUF_SIZE, in an action that calls yyunput, after a run that agrees
+            # with the machine up to that action (when exactly it must occur is the subject of the unput grid, coq/Unput.v)
+            small = any(o.startswith("-DYY_BUF_SIZE=") and int(o.split("=")[1]) <= 64 for o in (case.get('cc_extra') or []))
+            lastt = [e for e in revs if e[0] == 'T']
+            in_unput_action = bool(lastt) and any(o[0] == 'unput' for o in case['acts'].get(lastt[-1][1], []))
+            if small and in_unput_action and revs == mevs[:len(revs)]:
+                ok = True
+                res['pushback_overflows_documented'] = res.get('pushback_overflows_documented', 0) + 1
         res['streams'].append({'input': [bytes(w).hex() for w in sources], 'sc': 1, 'real': [(e[1], e[2]) for e in revs if e[0] == 'T'],
                                'valid': ok, 'text_ok': True})
         if not ok:
